@@ -17,18 +17,30 @@ def main(ctx):
     for r in ctx.run_jobs(J, timeout=900):
         cexs += ctx.absorb(r)
     ctx.replay_all(cexs, MOD, 'replay')
+    # the configuration saved after a run replays (E3: real machine, EUF stub steps carrying a fingerprint of the configuration they were
+    # built with; suffixed / repeated steps, multiscale, filling): accepted on a fresh machine, same steps, same band names, same products
+    from vf.checks import e3common
+    c3 = e3common.run_e3(ctx, 'C19', 4 if ctx.quick else 6, word_filter=lambda w: 4 in w or 9 in w or len(w) != len(set(w)) or len(w) <= 3,
+                         ms_variants=((2, 2),) if ctx.quick else ((2, 2), (3, 2)), suffix_styles=(0, 4) if ctx.quick else (0, 1, 3, 4),
+                         fillings=(False, True), histories=True, mirror=False, chunks=8)
+    ctx.replay_all(c3, e3common.MOD, 'replay')
     ctx.cov['explanation'] = ('save_results / write_data_array executed on symbolic products (any float32 disparity/confidence, any uint16 mask) with a '
                               'recording writer: z3 decides that every band handed to the writer equals the in-memory product, dtypes, band names == '
                               'indicators, per-side georeferencing, right_* files iff the right dataset is non-empty; plus concrete end-to-end witnesses of '
                               'pandora.main on small real GeoTIFFs: files on disk == independent in-memory run, cfg/config.json loadable, records the '
                               'margins, is accepted when fed back and reproduces the rasters (integer interval with/without validation, NaN '
-                              'invalid_disparity, disparity grids, confidence bands)')
+                              'invalid_disparity, disparity grids, confidence bands); plus E3: the real PandoraMachine with EUF stub steps on every '
+                              'accepted word up to the bound -- the configuration object as the run left it, passed through JSON, is accepted by a fresh '
+                              'machine and gives the same step log, the same confidence indicators (band names) and the same product terms (z3 validity)')
     ctx.assumptions += ['C19: bytes written/read by GDAL are outside the solver claim (recording stub); the end-to-end part is a concrete witness, not a proof']
 
 
 def replay(body):
     from vf.common import Ctx
     import json, shutil
+    if body['cex'].get('harness') == 'e3.run_words':
+        from vf.checks import e3common
+        return e3common.replay(body, 'C19')
     ctx = Ctx('C19', 'quick', 0)
     r = ctx.run_job({'mod': MOD, 'fn': 'replay', 'mode': 'plain', 'nojit': True, 'args': {'cex': body['cex']}}, 600)
     print(json.dumps({k: v for k, v in r.items() if k != 'job'}, indent=1))
